@@ -8,7 +8,8 @@ from fv import space
 def main():
     bad = []
     # ref derivative vs central differences of ref_eval, every grammar production
-    defs = space.family_ops("thorough") + space.family_cse("quick")
+    # (the deep "many temporaries" chains are left out: sympy.N re-evaluates shared sub-expressions exponentially often)
+    defs = space.family_ops("thorough") + [d for d in space.family_cse("quick") if "manytemps" not in d["name"]]
     n = 0
     for d in defs:
         st, ca, ct = space.def_symbols(d)
